@@ -1,6 +1,7 @@
 package props
 
 import (
+	"sync/atomic"
 	"bytes"
 	"encoding/json"
 	"fmt"
@@ -67,6 +68,21 @@ func attrValueOf(r *samlp.ResponseType, name string) (string, string, string, bo
 	return "", "", "", false
 }
 
+// c18Dirty: second pass - every emission happens on a provider that served other replies on failing connections before
+var c18Dirty atomic.Bool
+
+func c18MaybeDirty(w *world.World) {
+	if !c18Dirty.Load() || w == nil {
+		return
+	}
+	if !w.Store.Registered("app-b") {
+		if _, err := w.Store.RegisterSP("app-b", msg.SPB().XML()); err != nil {
+			panic(err)
+		}
+	}
+	dirtyWrites(w)
+}
+
 func c18Scenarios() []c18Scenario {
 	var out []c18Scenario
 	// 1/2: callback success on both bindings (14 fields shared with C03/C04)
@@ -79,6 +95,7 @@ func c18Scenarios() []c18Scenario {
 					c04Apply(&p, f, vals[i])
 				}
 				w, t := cbBuild(p)
+				c18MaybeDirty(w)
 				rep, m := cbRun(w, t)
 				if rep.Panic != "" || m.XML == nil {
 					return nil, nil, fmt.Errorf("no message: %s", obs.Describe(rep, m))
@@ -133,6 +150,7 @@ func c18Scenarios() []c18Scenario {
 	out = append(out, c18Scenario{"response-failure-sso", []string{"request-id", "storage-error-text", "relay"},
 		func(fields []int, vals []string) ([]byte, []string, error) {
 			w, _ := stdWorld(world.Config{})
+			c18MaybeDirty(w)
 			id, relay := "_req", "rs"
 			for i, f := range fields {
 				switch f {
@@ -140,7 +158,7 @@ func c18Scenarios() []c18Scenario {
 					id = "_" + vals[i]
 				case 1:
 					w.Store.ErrText = vals[i]
-					w.Store.FaultAt("CreateAuthRequest", 1, world.FaultError)
+					w.Store.FaultNext("CreateAuthRequest", 1, world.FaultError)
 				case 2:
 					relay = vals[i]
 				}
@@ -178,6 +196,7 @@ func c18Scenarios() []c18Scenario {
 	out = append(out, c18Scenario{"logout-response", []string{"request-id", "storage-error-text", "relay"},
 		func(fields []int, vals []string) ([]byte, []string, error) {
 			w, _ := stdWorld(world.Config{})
+			c18MaybeDirty(w)
 			id, relay := "_lo", "rs"
 			for i, f := range fields {
 				switch f {
@@ -185,7 +204,7 @@ func c18Scenarios() []c18Scenario {
 					id = "_" + vals[i]
 				case 1:
 					w.Store.ErrText = vals[i]
-					w.Store.FaultAt("GetEntityByID", 1, world.FaultError)
+					w.Store.FaultNext("GetEntityByID", 1, world.FaultError)
 				case 2:
 					relay = vals[i]
 				}
@@ -241,6 +260,7 @@ func c18Scenarios() []c18Scenario {
 				}
 			}
 			w, req, _ := aqBuild(ap)
+			c18MaybeDirty(w)
 			w.Store.AddUser(u)
 			rep := w.Do(req)
 			if rep.Panic != "" || rep.Status != 200 {
@@ -308,6 +328,7 @@ func c18Scenarios() []c18Scenario {
 			if err != nil {
 				return nil, nil, err
 			}
+			c18MaybeDirty(w)
 			rep := w.Do(world.NewRequest("GET", host, w.Cfg.MetadataPath(), nil, "", nil))
 			if rep.Panic != "" || rep.Status != 200 {
 				return nil, nil, fmt.Errorf("no message: status %d panic %q", rep.Status, rep.Panic)
@@ -728,6 +749,29 @@ func runC18(ctx Ctx) int {
 			run.Violate(cl, it.sc.Name, labels, detail, map[string]any{"case": it.c})
 		}
 	})
+	// second pass: the same emissions (every field x the first three symbols) after replies on failing connections
+	c18Dirty.Store(true)
+	var dirtyItems []item
+	for _, it := range items {
+		if len(it.c.Syms) == 1 && (it.c.Syms[0] == symNames[0] || it.c.Syms[0] == symNames[1] || it.c.Syms[0] == symNames[2]) {
+			dirtyItems = append(dirtyItems, it)
+		}
+	}
+	_, c2d := parallel(len(dirtyItems), deadline, func(i int) {
+		it := dirtyItems[i]
+		class, clauses, detail := c18Judge(it.sc, it.c, docs)
+		run.Evaluations.Add(1)
+		run.Outcome("message-after-failed-writes:" + it.sc.Name + "/" + class)
+		for _, cl := range clauses {
+			labels := []string{"after-replies-on-failing-connections"}
+			for j, f := range it.c.Fields {
+				labels = append(labels, "field="+it.sc.Fields[f]+"/char="+it.c.Syms[j])
+			}
+			run.Violate(cl, it.sc.Name, labels, detail, map[string]any{"case": it.c, "after_failed_writes": true})
+		}
+	})
+	c18Dirty.Store(false)
+	c2 = c2 && c2d
 	close(docs)
 	wg.Wait()
 	df.Close()
